@@ -8,14 +8,14 @@ import crypto as r_crypto
 import message as r_msg
 
 RULE = ('(1) payload lists (reference-generated, all payload kinds; plus a VENDOR payload of every length 1..48 so that every plaintext residue mod 16 occurs) are '
-        'put into real Message objects with each of the 6 cipher/integrity pairs, random keys and IVs; to_bytes() output is dissected by the '
+        'put into real Message objects with each of the 6 cipher/integrity pairs, random keys and IVs (fresh Crypto objects, and sequences of 8 messages through one Crypto object); to_bytes() output is dissected by the '
         'reference (hmac + AES-CBC primitive): last N octets == HMAC(SK_a, everything before)[:N] with N the negotiated 12/16/32, SK body = '
         'IV(16) + whole blocks, plaintext = payloads + pad + PadLength with PadLength == len(pad), inner bytes == the serialised payloads, only '
         'SK in the clear; parse() under the same keys returns the same payloads. (2) every tampered variant must make Message.parse raise '
         'InvalidSyntax / UnsupportedCriticalPayload: every octet x bit (36 representative message x suite combinations incl. empty-body ones of every '
         'exchange kind; 8 bits on header/IV/ICV, 3 on ciphertext), every truncation, extension by 1..32 octets (with and without fixing '
         'the Length field), another SK_a; under another SK_e the message must still authenticate (protocol error or success, nothing else). '
-        '(3) wire monitor: in simulated histories every datagram after IKE_SA_INIT has SK as its only cleartext payload. '
+        '(3) wire monitor: in simulated histories every datagram after IKE_SA_INIT has SK as its only cleartext payload, and every datagram whose ICV verifies under the keys the independent shadow derived decrypts (reference AES-CBC under the IV in the datagram) to a well-formed payload chain; every protected datagram of these honest histories must verify under the negotiated integrity algorithm and derived key. '
         'distinct = (suite, residue / tamper region, outcome).')
 ASSUMPTIONS = ['AES-CBC / HMAC primitives of the cryptography package and hashlib are trusted',
                'tampered variants are judged at the Message.parse level (what C03 judges at the IKE_SA level)']
@@ -53,8 +53,8 @@ def try_parse(data, crypto):
         return None, ex
 
 
-def check_roundtrip(ck, rng, payloads_abs, bits, iid, tag):
-    crypto, keys = make_crypto(rng, bits, iid)
+def check_roundtrip(ck, rng, payloads_abs, bits, iid, tag, session=None):
+    crypto, keys = session or make_crypto(rng, bits, iid)
     m, inner, objs = build_message(rng, payloads_abs, crypto)
     data = bytes(m.to_bytes())
     case = {'suite': (bits, iid), 'payload_types': [p['type'] for p in payloads_abs], 'data': data, 'keys': keys}
@@ -67,6 +67,9 @@ def check_roundtrip(ck, rng, payloads_abs, bits, iid, tag):
         n = ICV[iid]
         why = 'icv-is-not-the-negotiated-truncated-hmac-over-everything-before' if len(data) > n and ikecrypto.icv(iid, keys[1], data[:-n]) != data[-n:] else str(ex)
         ck.violation(f'emitted-message-not-protected-as-rfc7296-3.14:{why}:integ{iid}', case, case)
+        return None
+    except codec.DecodeError as ex:
+        ck.violation(f'emitted-message-authentic-but-its-plaintext-under-the-iv-in-the-datagram-is-no-payload-chain:{tag}', {'error': str(ex), **case}, case)
         return None
     if info['inner_raw'] != inner:
         ck.violation('decrypted-plaintext-differs-from-the-serialised-payloads', case, case)
@@ -175,6 +178,17 @@ def run(ck):
         n += 1
         if ck.mine(n):
             check_roundtrip(ck, rng, [], bits, iid, 'empty')
+    # one Crypto object protecting a whole sequence of messages, as an IKE_SA does (state kept between messages must not leak into the next)
+    for bits, iid in SUITES:
+        for s_ in range(2 if not thorough else 40):
+            n += 1
+            if not ck.mine(n):
+                continue
+            session = make_crypto(rng, bits, iid)
+            for j in range(8):
+                pls = [{'type': 43, 'critical': False, 'data': gen.rb(rng, rng.randrange(1, 60))}] if j % 3 else []
+                check_roundtrip(ck, rng, pls, bits, iid, 'session', session)
+                ck.count('roundtrip.session_messages')
     for i in range(600 if not thorough else 200000):
         n += 1
         if not ck.mine(n):
@@ -223,7 +237,7 @@ def run(ck):
             ck.count('tamper.messages')
             tamper(ck, rng, data, crypto, keys, 'random', thorough)
     # (3) wire monitor in real histories
-    for h in range(6 if not thorough else 400):
+    for h in range(12 if not thorough else 400):
         n += 1
         if not ck.mine(n):
             continue
@@ -235,6 +249,11 @@ def run(ck):
         sh.feed(sim.wire)
         ck.count('wire.datagrams_opened', sh.counts.get('protected.opened', 0))
         ck.count('wire.histories')
+        ck.count('wire.not_opened', sh.counts.get('protected.not_opened', 0))
+        ck.count('wire.unknown_ike_sa', sh.counts.get('protected.unknown_ike_sa', 0))
+        if sh.counts.get('protected.not_opened', 0):
+            # an honest, loss-free history: every protected datagram of an IKE_SA whose IKE_SA_INIT the shadow saw must verify under the negotiated algorithms and keys
+            ck.violation('wire:protected-datagram-of-an-honest-history-is-not-authentic-under-the-negotiated-suite-and-keys', {'not_opened': sh.counts['protected.not_opened'], 'opened': sh.counts.get('protected.opened', 0)}, {'conf': kw})
         for v in sh.clear_violations:
             ck.violation('datagram-after-ike-sa-init-carries-cleartext-payloads', v, {'conf': kw})
         for k_, d in sh.problems:
@@ -246,9 +265,10 @@ def run(ck):
 def verdict(ck):
     c = ck.counters
     ck.floor('round trips', c['roundtrip.messages'], 700)
+    ck.floor('round trips through a Crypto object that protected earlier messages', c['roundtrip.session_messages'], 60)
     ck.floor('suite x residue combinations', len(ck.sets['roundtrip.suite_x_residue']), 96)
     ck.floor('tampered variants judged', sum(v for k, v in c.items() if k.startswith('tamper.') and k not in ('tamper.messages', 'tamper.rejected')), 20000)
     ck.floor('tamper regions', len({k for k in c if k.startswith('tamper.bitflip.')}), 5)
     ck.floor('representative messages tampered', c['tamper.messages'], 30)
-    ck.floor('wire datagrams opened', c['wire.datagrams_opened'], 100)
+    ck.floor('wire datagrams opened', c['wire.datagrams_opened'], 200)
     return None
